@@ -47,6 +47,7 @@ class Module:
         # locals are renamed to the reference naming (see alpha.py); the
         # tree stays equivalent to the source
         from . import alpha
+        alpha.pre_normalise(self.tree)
         self.renamed = alpha.normalise(self.tree, name)
         self.relpath = os.path.relpath(path, REPO)
         for parent in ast.walk(self.tree):
